@@ -47,7 +47,9 @@ ASBUILT = {
            "decode cases include every possible first tag byte (enumerated) and tripwires on `pickle.loads/load/Unpickler`, "
            "`marshal.loads`, `eval/exec/compile/__import__/open` besides the audit hook. The thorough tier runs two atheris campaigns "
            "(empty and seeded corpus, oracle inside the target, `vlib/fuzz_brine.py`); a crash file is re-judged by the same oracle "
-           "outside the fuzzer before it counts.",
+           "outside the fuzzer before it counts. A further part changes the interpreter's int->text digit limit at run time "
+           "(0 = unlimited, 640 … 9000) and re-asks the declared-set question for integers just below / at / above / twice the "
+           "limit in force: 'can render as text' is a statement about the current setting, not the one at import time.",
     "C05": "Built as designed (`props/c05.py`); the kernel-socketpair part runs in both tiers (few cases in quick) with a watchdog that "
            "turns a reader waiting for bytes nobody sent into a reported failure instead of a hang.",
     "C06": "Built as designed; the grid turned out cheap enough (≈ 220 000 evaluations in ≈ 6 s) to be enumerated **completely in the "
@@ -71,7 +73,10 @@ ASBUILT = {
            "lists only (no nested INSPECT while unboxing; that path is covered by C01 where it found a defect). `use` and `pass back` are "
            "issued asynchronously so that no step ever blocks; a constructive sub-generator guarantees crossings (evidence counts them). "
            "Added: a schedule part (preemption-bounded DFS at line granularity inside `RefCountingColl.add/decref`, `_box`, `_handle_del`) "
-           "for 're-send races with the serving thread processing the release notice'.",
+           "for 're-send races with the serving thread processing the release notice'. A third of the histories use the *inspect* "
+           "variant: lendable objects are instances of fresh classes, so the holder must ask for each class's description the first "
+           "time a reference arrives; a pump task then delivers packets FIFO while the holder waits, which makes the holder dispatch "
+           "other requests *nested* inside the unboxing of the first (two proxies of one object being built at once).",
     "C11": "Built as designed plus a small real-socket part (a thread blocked in `serve()` on a loopback socket while another closes "
            "the connection). Specifics: faults are *incoming stream ends at byte k*, *outgoing write fails at byte k* and "
            "*poll fails at index i* (an I/O error and an end-of-stream are indistinguishable at the Stream contract; the difference is "
@@ -85,18 +90,31 @@ ASBUILT = {
            "caller starts its last blocking wait (`blocked-between-receive-and-dispatch`, `blocked-after-reply-dispatched`); every schedule "
            "is also run with both windows closed by construction (receiver atomic from `recv()` to the end of dispatch; waiter atomic from "
            "its readiness test to its try-acquire of the receive lock; nobody preempted while holding the condition's lock), and there any "
-           "stall is a VIOLATION regardless of classification.",
+           "stall is a VIOLATION regardless of classification. With a single caller, the caller may also be preempted between its "
+           "failed try-acquire and its `wait()` while it owns the condition (a receiver that then *skips* the notification is caught; "
+           "with two callers that preemption would reopen F4b and is therefore not taken in closed mode). `SimCondition` implements "
+           "`wait_for`, `acquire` and `release` too, so changes that use those run instead of crashing the simulation.",
     "C15": "Built as designed for a single requester thread, plus a part in which another thread holds the receive lock while the "
            "timeout expires (the waiter must still give up at its deadline and the late reply must still land). Ties, negative timeouts and cases with a time-consuming unrelated handler are held to the universal clauses only "
            "(the evidence counts exact vs. universal-only comparisons).",
     "C16": "Built as designed on real sockets (`vlib/servers.py`); the forking server runs in a helper process. Added a *barrage* scenario "
-           "(more failing clients than pool workers).",
+           "(more failing clients than pool workers), a service whose disconnect hook takes 0.15 s (the next client arrives while the "
+           "previous one is being cleaned up - this exposed a descriptor re-use defect of the thread-pool server, §3), a service whose "
+           "constructor takes 0.1 s together with two well-behaved clients arriving at the same time, and an ownership oracle: the "
+           "connection a client is served on carries that client's own endpoints and credentials (the authenticator hands out "
+           "per-client credentials).",
     "C17": "Built as designed; the forking server is audited through its helper process (descriptor count of the parent). Added *flash* "
-           "clients (connect and reset at once, several times).",
+           "clients (connect and reset at once, several times), *close during accept* (a harness-side wrapper around the listener lets "
+           "`close()` run to completion between the listener handing out a late client's connection and the accept loop seeing it; "
+           "the late client must get end-of-stream and the closed server must hold nothing), and *coalesced child exits* for the "
+           "forking server (the helper process blocks SIGCHLD, n clients leave, all n children are zombies, the signal is released "
+           "once in the main thread: no exited child may remain in the process table).",
     "C18": "Built in-process over scripted sockets as designed, plus a real-loopback part (UDP and TCP registry servers on 127.0.0.1 "
            "with real clients) in both tiers with few cases.",
     "C19": "Built as designed (`props/c19.py`, `props/c19conv.py`).",
-    "C20": "Built as designed; names include leading/trailing blanks and tabs.",
+    "C20": "Built as designed; names include leading/trailing blanks and tabs. The destination is compared at the moment the call "
+           "returns (before anything else runs) and again at the end, and optionally the source files are rewritten (other bytes, same "
+           "or half the size) and transferred a second time over the existing destination.",
 }
 for pid, text in ASBUILT.items():
     marker = "*As built (%s).*" % pid
